@@ -32,7 +32,7 @@ Section Main.
     specialize (B Hj). rewrite <- B. apply IH; auto; lia.
   Qed.
 
-  Theorem dbscan_correct : forall y c,
+  Lemma dbscan_correct : forall y c,
     dbscan nb minpts n = Some (y, c) ->
     length y = n /\ (0 <= c)%Z /\
     (forall i, i < n -> get y i = (-1)%Z \/ (0 <= get y i < c)%Z) /\
@@ -197,7 +197,7 @@ Section Main.
   Qed.
 
   (* fit never runs out of fuel: the `while` loop of the implementation terminates *)
-  Theorem dbscan_terminates : exists y c, dbscan nb minpts n = Some (y, c).
+  Lemma dbscan_terminates : exists y c, dbscan nb minpts n = Some (y, c).
   Proof.
     unfold dbscan.
     destruct (outer_terminates (dbscan_fuel nb n) n 0 0%Z (repeat undefined n)) as ([y c] & H).
@@ -232,7 +232,7 @@ Section Main.
     rewrite (expand_fuel_mono _ _ _ _ _ Hex f' Hle). auto.
   Qed.
 
-  Theorem dbscan_fuel_irrelevant : forall fuel, dbscan_fuel nb n <= fuel ->
+  Lemma dbscan_fuel_irrelevant : forall fuel, dbscan_fuel nb n <= fuel ->
     outer nb minpts fuel (seq 0 n) 0%Z (repeat undefined n) = dbscan nb minpts n.
   Proof.
     intros fuel Hle. destruct dbscan_terminates as (y & c & H). rewrite H.
